@@ -11,6 +11,7 @@ CONSTANTS N = 3
  VCBatchPolicy = "none"
  AggBatchFor = "syncmsg"
  MemoVerifier = FALSE
+ DomainCache = FALSE
  ReplayPolicy = "admit"
 INVARIANTS TypeOK OnlyValidEnter ValidEnters PeerAllOrNothing
 CHECK_DEADLOCK FALSE
